@@ -42,6 +42,15 @@ inductive Expr where
   | arrayJoin (src arr : Expr)              -- `From(src).Join(NewJoin("array", arr, nil))`: `src array JOIN arr `
   | anyIfNum (key : Bytes)                  -- sqlAttrValue: `anyIf(toFloat64OrNull(val), key == '<key>')`
   | distinct (e : Expr)                     -- `distinct e` inside count(…)
+  -- ---- added for the LogQL metric planners (C08); additive
+  | mulOp (a b : Expr)                      -- text `a * b` (e.g. `intDiv(ts, d) * d`)
+  | divOp (a b : Expr)                      -- text `a / b` (e.g. `toFloat64(COUNT()) / 5.000000`)
+  | mapFilterKeys (keep : Bool) (keys : List Bytes) (m : Expr)  -- byWithoutFilterCol: `mapFilter((k,v) -> k [NOT ]IN ('a','b'), m)`
+  | mapAt (m : Expr) (key : Bytes)          -- `m['key']` (UnwrapPlanner)
+  | tupleAt (name : String) (i : Nat)       -- `arr_b.2` (TopKPlanner)
+  | topkSlice (isTop hasLabels : Bool) (k : Nat)  -- TopKPlanner: `arraySlice(arraySort([λ,]groupArray((par_a.value, par_a.fingerprint[, par_a.labels]))), 1, k)`
+  | arrayJoinFrom (src arr : Expr)          -- FROM `src array JOIN arr ` (Join of type "array": no ON, trailing blank)
+  | fixedLit (units scale : Nat)            -- a FloatVal/`%f` literal whose value is units / 10^scale (scale ≤ 6), printed with six decimals
 inductive Sel where
   | mk (withs : List (Alias × Sel)) (distinct : Bool) (cols : List Expr) (from_ : Option Expr)
        (joins : List (String × Alias × Expr)) (preWhere wher : Option Expr) (groupBy : List Expr)
@@ -55,6 +64,14 @@ def joinB (sep : Bytes) : List Bytes → Bytes
 
 def natDigits (n : Nat) : Bytes := (toString n).toUTF8.toList
 def intText (i : Int) : Bytes := (toString i).toUTF8.toList
+
+/-- `%f` text of units / 10^scale for scale ≤ 6: integer part, `.`, `scale` digits, zero padding to six decimals -/
+def fixedText (units scale : Nat) : String :=
+  let p := 10 ^ scale
+  let frac := toString (units % p)
+  toString (units / p) ++ "." ++
+    (if scale = 0 then "" else String.ofList (List.replicate (scale - frac.length) '0') ++ frac) ++
+    String.ofList (List.replicate (6 - scale) '0')
 
 def tsLabelsText : String :=
   "mapFromArrays(arrayMap(x -> x.1, JSONExtractKeysAndValues(time_series.labels, 'String') as rawlbls), " ++
@@ -85,6 +102,20 @@ def renderExpr : Expr → Bytes
   | .arrayJoin src arr => renderExpr src ++ b " array JOIN " ++ renderExpr arr ++ b " "
   | .anyIfNum k => b "anyIf(toFloat64OrNull(val), key == " ++ quote k ++ b ")"
   | .distinct e => b "distinct " ++ renderExpr e
+  | .mulOp x y => renderExpr x ++ b " * " ++ renderExpr y
+  | .divOp x y => renderExpr x ++ b " / " ++ renderExpr y
+  | .mapFilterKeys keep keys m =>
+    b "mapFilter((k,v) -> k " ++ b (if keep then "IN" else "NOT IN") ++ b " (" ++ joinB (b ",") (keys.map quote) ++ b "), " ++
+      renderExpr m ++ b ")"
+  | .mapAt m key => renderExpr m ++ b "[" ++ quote key ++ b "]"
+  | .tupleAt name i => b name ++ b "." ++ natDigits i
+  | .topkSlice isTop hasLabels k =>
+    b "arraySlice(arraySort(" ++
+      (if isTop then b "x -> (-x.1, x.2" ++ (if hasLabels then b ", x.3" else []) ++ b ")," else []) ++
+      b "groupArray((par_a.value, par_a.fingerprint" ++ (if hasLabels then b ", par_a.labels" else []) ++ b "))), 1, " ++
+      natDigits k ++ b ")"
+  | .arrayJoinFrom src arr => renderExpr src ++ b " array JOIN " ++ renderExpr arr ++ b " "
+  | .fixedLit units scale => b (fixedText units scale)
 def renderExprs : List Expr → List Bytes
   | [] => []
   | o :: os => renderExpr o :: renderExprs os
